@@ -37,7 +37,7 @@ use std::time::Duration;
 
 pub const META: Meta = Meta {
     level: "model_checking",
-    rule: "configs = (script A, script B, max_circuit_bytes in {0,10,8192}); a script is <= W writes of sizes {1,7,8193}, or one write of 24577 bytes (base bound only), followed by close or keep-open; (W, deviation bound) classes: quick (2,1),(1,2); thorough (3,1),(2,2),(1,3); per config every execution with <= bound deviations: 1-byte read / 1-byte partial write / injected Pending on the relay-side pipe ends, non-round-robin task choice among {CopyFuture, writer A, writer B} (writers yield between chunks), and 'the circuit duration elapses before the first poll' instead of after the first quiescence. Non-trivial = executions with >= 1 deviation (distinct by config and choice sequence).",
+    rule: "configs = (script A, script B, max_circuit_bytes in {0,10,8192}); a script is <= W writes of sizes {1,7,8193}, or one write of 24577 bytes (base bound only), followed by close or keep-open; (W, deviation bound) classes: quick (2,1),(1,2); thorough (3,1),(2,2),(1,3); per config every execution with <= bound deviations: 1-byte read / 1-byte partial write / injected Pending on the relay-side pipe ends, non-round-robin task choice among {CopyFuture, writer A, writer B} (writers yield between chunks), and 'the circuit duration elapses before the first poll' instead of after the first quiescence. plus 'simultaneous traffic' configs (bytes offered at once by A and by B in {0,100,45000} (thorough also 1, 9000), relay-side read chunk in {16,512,8192} (thorough also 1, 4096), limit in {0,10,8192,20000}, close/keep-open; no injected pipe deviations, schedule/early-deadline deviations <= 1) in which both directions progress in the same poll iteration. Non-trivial = executions with >= 1 deviation (distinct by config and choice sequence).",
     explanation: "E1 stateless DFS with deviation bound over the real CopyFuture (production code through a hook wrapper; its Delay is the virtual-clock Delay); oracle evaluated on every execution: prefix property both ways, byte bound max+2*8KiB while running / on Ok, error after the deadline for an idle circuit, never pending after the deadline.",
     assumptions: &["poll-granularity interleaving on one thread", "pipes are unbounded (back-pressure is modelled by injected Pending / partial writes on the relay side)", "max_circuit_bytes = 0 read as 'unlimited'"],
 };
@@ -71,14 +71,17 @@ struct Cfg {
     b: Vec<usize>,
     b_close: bool,
     max: u64,
+    /// 0: adversarial relay-side pipes (deviations). n > 0: 'simultaneous traffic' mode — relay-side
+    /// reads return at most n bytes (8192 = a full BufReader buffer), no injected deviations.
+    chunk: usize,
 }
 impl Cfg {
     fn to_json(&self) -> Value {
-        json!({"a": self.a, "a_close": self.a_close, "b": self.b, "b_close": self.b_close, "max": self.max})
+        json!({"a": self.a, "a_close": self.a_close, "b": self.b, "b_close": self.b_close, "max": self.max, "chunk": self.chunk})
     }
     fn from_json(v: &Value) -> Cfg {
         let sz = |k: &str| -> Vec<usize> { v[k].as_array().map(|a| a.iter().map(|x| x.as_u64().unwrap_or(0) as usize).collect()).unwrap_or_default() };
-        Cfg { a: sz("a"), a_close: v["a_close"].as_bool().unwrap_or(false), b: sz("b"), b_close: v["b_close"].as_bool().unwrap_or(false), max: v["max"].as_u64().unwrap_or(0) }
+        Cfg { a: sz("a"), a_close: v["a_close"].as_bool().unwrap_or(false), b: sz("b"), b_close: v["b_close"].as_bool().unwrap_or(false), max: v["max"].as_u64().unwrap_or(0), chunk: v["chunk"].as_u64().unwrap_or(0) as usize }
     }
 }
 
@@ -108,8 +111,9 @@ fn one(cfg: &Cfg) -> Result<(), String> {
     let (mut b_relay, mut b_user) = pipe::pair(PipeCfg::default());
     a_user.cfg = PipeCfg::default();
     b_user.cfg = PipeCfg::default();
-    a_relay.cfg = PipeCfg::adversarial();
-    b_relay.cfg = PipeCfg::adversarial();
+    let relay_cfg = if cfg.chunk == 0 { PipeCfg::adversarial() } else { PipeCfg { max_read: cfg.chunk, ..PipeCfg::default() } };
+    a_relay.cfg = relay_cfg;
+    b_relay.cfg = relay_cfg;
     let h1 = a_user.handle();
     let h2 = b_user.handle();
     let a_all: Vec<u8> = pattern(0, cfg.a.iter().sum());
@@ -200,6 +204,11 @@ fn one(cfg: &Cfg) -> Result<(), String> {
     let total = fab + fba;
     let (got_a, got_b) = check_prefix(&h1, &h2, "end")?;
     let r = result.borrow_mut().take().expect("done");
+    // "ends with an error once more than max (+ one read buffer per direction) has been
+    // forwarded": whatever the result, the total can never have passed that bound
+    if cfg.max > 0 && total > cfg.max + 2 * BUF {
+        return Err(format!("forwarded-beyond-limit max={} :: {fab}+{fba}={total} bytes were forwarded (> max + 2*8KiB) before the future ended with {:?}", cfg.max, r.as_ref().map_err(|e| e.to_string())));
+    }
     let mut st = Stats::default();
     match &r {
         Ok(()) => {
@@ -288,7 +297,26 @@ pub fn run(ctx: &Ctx) -> Outcome {
                     continue;
                 }
                 let bound = if a.contains(&LONG) || b.contains(&LONG) { classes[0].1 } else { bound };
-                work.push((Cfg { a: a.clone(), a_close: ac, b: b.clone(), b_close: bc, max }, bound));
+                work.push((Cfg { a: a.clone(), a_close: ac, b: b.clone(), b_close: bc, max, chunk: 0 }, bound));
+            }
+        }
+    }
+    // Simultaneous traffic: both endpoints have their data available before the CopyFuture is
+    // polled, so that both directions progress in the same loop iteration; relay-side reads come
+    // in chunks of `chunk` bytes. Enumerated: (bytes offered by A, by B, chunk, limit); schedule
+    // and early-deadline deviations up to bound 1. With limit 20000 the offered 45000 bytes per
+    // side exceed limit + 2 * 8 KiB in sum, so mis-accounting one direction is visible.
+    let offered: &[usize] = if ctx.quick() { &[0, 100, 45_000] } else { &[0, 1, 100, 9_000, 45_000] };
+    let chunks: &[usize] = if ctx.quick() { &[16, 512, 8192] } else { &[1, 16, 512, 4096, 8192] };
+    for &na in offered {
+        for &nb in offered {
+            for &chunk in chunks {
+                for max in [0u64, 10, 8192, 20_000] {
+                    for close in [true, false] {
+                        let w = |n: usize| if n == 0 { vec![] } else { vec![n] };
+                        work.push((Cfg { a: w(na), a_close: close, b: w(nb), b_close: close, max, chunk }, 1));
+                    }
+                }
             }
         }
     }
